@@ -1,0 +1,13 @@
+//go:build verif
+
+package fetcher
+
+// verifStepHook, when set, is called on the fetcher's loop goroutine at the top of every iteration, where the
+// announcement and queue bookkeeping is between two events (verification harness only).
+var verifStepHook func(f *Fetcher)
+
+func verifStep(f *Fetcher) {
+	if h := verifStepHook; h != nil {
+		h(f)
+	}
+}
